@@ -56,7 +56,7 @@ def plan(tier):
 
 
 def required_regimes(tier):
-    return {'mode:default', 'mode:periodic', 'J:1', 'J:2', 'J:3', 'J:4', 'J:5', 'size:h!=w', 'filter_longer_than_image', 'shift_commutation', 'channels:2'}
+    return {'mode:default', 'mode:periodic', 'J:1', 'J:2', 'J:3', 'J:4', 'J:5', 'size:h!=w', 'filter_longer_than_image', 'shift_commutation', 'channels:2', 'variant:no_grad'}
 
 
 def run(item):
@@ -96,6 +96,14 @@ def run(item):
     res['transitions'] += J
     res['evals'] += P
     res.regime(*tags)
+    try:
+        with torch.no_grad():
+            o_ng = m(torch.as_tensor(X))
+        res.regime('variant:no_grad')
+        if len(o_ng) != len(out) or any(a_.shape != b_.shape or not torch.equal(a_, b_) for a_, b_ in zip(o_ng, out)):
+            res.violation('swt_vs_pywt', dict(cfg, variant='no_grad'), {'kind': 'value_or_shape', 'what': 'result under no_grad differs'}, tags)
+    except Exception as e:
+        res.violation('swt_vs_pywt', dict(cfg, variant='no_grad'), {'kind': 'raise', 'exc': repr(e)[:200]}, tags)
     if not isinstance(out, (list, tuple)) or len(out) != J:
         res.violation('swt_vs_pywt', cfg, {'kind': 'structure', 'observed': 'len %s' % (len(out) if hasattr(out, '__len__') else type(out))}, tags)
         return res
